@@ -66,7 +66,8 @@ def gen_default(rng, wild):
     if k == 2:
         return {'k': 'bool', 'v': rng.random() < 0.5}
     if k == 3:
-        pool = ['x', 'active', 'a b', ''] + (["it's", 'true', 'NULL', 'a\nb', 'br{ace}', 'x,y'] if wild else [])
+        pool = ['x', 'active', 'a b', '', "it's", 'C:\\dir\\file', 'ends with \\', '^\\d{4}$', 'say "hi"', 'x,y', '[b]', '#tag', '// not a comment'] \
+            + (['true', 'NULL', 'a\nb', 'br{ace}'] if wild else [])
         return {'k': 'str', 'v': pick(rng, pool)}
     pool = ['now()', 'a + b', 'gen_random_uuid()'] + (["lower('x')", 'multi\nline', '{x}'] if wild else [])
     return {'k': 'expr', 'v': pick(rng, pool)}
